@@ -44,6 +44,12 @@ func hasPrefixFold(s, p string) bool {
 // safePrefix reports whether s starts with https://origin/, //origin/, a single-slash path or about:blank#,
 // and where the path starts (-1 if there is no hierarchical path, i.e. about:blank#).
 func safePrefix(s string) (ok bool, pathStart int) {
+	if strings.ContainsAny(s, "\t\n\r") {
+		// a URL parser removes every tab, LF and CR before anything else: the prefix is judged on what is left
+		// ("/\t/host/" is "//host/"); callers make no further claim about accepted formats of this kind
+		ok, _ = safePrefix(stripTNR(s))
+		return ok, 0
+	}
 	rest, off := s, 0
 	switch {
 	case hasPrefixFold(s, "https://"):
@@ -72,6 +78,10 @@ func safePrefix(s string) (ok bool, pathStart int) {
 		}
 	}
 	return true, off + i
+}
+
+func stripTNR(s string) string {
+	return strings.NewReplacer("\t", "", "\n", "", "\r", "").Replace(s)
 }
 
 // ---------- format ----------
@@ -226,6 +236,9 @@ func checkFormat(c FormatCase) evid.Outcome {
 	}
 	pieces := scan(format)
 	okPrefix, pathStart := safePrefix(format)
+	if err == nil && okPrefix && strings.ContainsAny(format, "\t\n\r") {
+		return evid.Outcome{Skip: true, Labels: []string{"accepted-format-with-tab-or-newline"}}
+	}
 	missing := false
 	nt := false
 	enc := map[string]string{}
@@ -327,6 +340,9 @@ func checkAppend(c AppendCase) evid.Outcome {
 	res := got.String()
 	if !okPrefix {
 		return evid.Viol("base %q has no safe prefix but Append succeeded with %q", base, res)
+	}
+	if strings.ContainsAny(base, "\t\n\r") {
+		return evid.Outcome{Skip: true, Labels: []string{"accepted-base-with-tab-or-newline"}}
 	}
 	enc := rfc3986.EncodeUnreservedOnly(suf)
 	if rfc3986.UpperHex(res) != rfc3986.UpperHex(base+enc) {
@@ -448,8 +464,8 @@ func checkParams(c ParamsCase) evid.Outcome {
 // ---------- generators ----------
 
 var safePrefixes = []string{"https://host/", "HTTPS://Host.Example:8443/", "https://[::1]/", "//host/", "//cdn.example.com/", "/x", "/path/", "/a", "about:blank#", "ABOUT:BLANK#", "https://a-b.c/"}
-var unsafePrefixes = []string{"http://host/", "https://host", "https://user@host/", "https://host\\/", "https:///", "https://", "//", "/", "/\\evil/", "//\\evil/", "\\\\evil/", "/\\", "///evil/", "relative/", "x", "", "javascript:alert(1)//", "data:text/javascript,", "ftp://host/", "https:/host/", "https:host/", " https://host/", "https://host?/", "https://host#/", "https://ho%73t/", "https://host /", "about:blank", "about:srcdoc#", "https://ho@st/", "//ho\tst/", "https://évil/", "blob:https://host/"}
-var litPieces = []string{"a", "b", "x.js", "/", "/", ".", "..", "./", "../", "/.", "/..", "%2e", "%2E", "%2e%2e", "?", "#", "=", "&", "q=", "-", "_", "~", ";", ":", "@", "%", "%25", "\\", "//"}
+var unsafePrefixes = []string{"/\t/", "/\n/host/", "/\r\\host/", "/\t\t/", "h\tttps://host/", "https:/\t/host/", "http://host/", "https://host", "https://user@host/", "https://host\\/", "https:///", "https://", "//", "/", "/\\evil/", "//\\evil/", "\\\\evil/", "/\\", "///evil/", "relative/", "x", "", "javascript:alert(1)//", "data:text/javascript,", "ftp://host/", "https:/host/", "https:host/", " https://host/", "https://host?/", "https://host#/", "https://ho%73t/", "https://host /", "about:blank", "about:srcdoc#", "https://ho@st/", "//ho\tst/", "https://évil/", "blob:https://host/"}
+var litPieces = []string{"\t", "\n", "\r", "a", "b", "x.js", "/", "/", ".", "..", "./", "../", "/.", "/..", "%2e", "%2E", "%2e%2e", "?", "#", "=", "&", "q=", "-", "_", "~", ";", ":", "@", "%", "%25", "\\", "//"}
 var markers = []string{"%{a}", "%{b}", "%{c}", "%{d}", "%{a}", "%{b}", "%{A_1}", "%{9}"}
 var badMarkers = []string{"%{", "%{}", "%{a-b}", "%{a", "%%{a}", "%{a}}", "%{ a}", "%{é}", "%{a b}", "{a}", "%a", "%{%{a}}"}
 var argVals = []string{".", "..", "...", "/", "\\", "?", "#", "%", "%2e", "%2E%2e", ".%2e", "%2f", "a", "", "../", "/..", "x/y", "a/../b", "%00", "@evil", ":", "http://evil/", "//evil", " ", "\n", "é", "\xff", "a.b", "-", "_", "~", "+", "&x=1", "%252e"}
